@@ -164,6 +164,24 @@ func synthesizeAAAA(qname string, a *dns.A, prefix *net.IPNet, ttl uint32) *dns.
 	}
 }
 
+// prefixContains reports whether the IPv6 prefix contains addr, comparing
+// the 16-byte forms. net.IPNet.Contains first reduces an address of the
+// ::ffff:a.b.c.d shape to four bytes and then finds it too short for an
+// IPv6 mask, so under an all-zero Pref64 (::/56, ::/64) it denies the very
+// addresses embedIPv4 produces and the mapping stops being reversible.
+func prefixContains(prefix *net.IPNet, addr net.IP) bool {
+	ip, base := addr.To16(), prefix.IP.To16()
+	if ip == nil || base == nil || len(prefix.Mask) != net.IPv6len {
+		return false
+	}
+	for i := range ip {
+		if ip[i]&prefix.Mask[i] != base[i]&prefix.Mask[i] {
+			return false
+		}
+	}
+	return true
+}
+
 // extractIPv4 is the inverse of embedIPv4. It returns the IPv4
 // address embedded in addr under prefix, plus true on success.
 // Returns false when prefix doesn't actually contain addr, when
@@ -176,7 +194,7 @@ func synthesizeAAAA(qname string, a *dns.A, prefix *net.IPNet, ttl uint32) *dns.
 // be a translated address, so refusing to extract avoids
 // returning a confusing CNAME for unrelated traffic.
 func extractIPv4(prefix *net.IPNet, addr net.IP) (net.IP, bool) {
-	if !prefix.Contains(addr) {
+	if !prefixContains(prefix, addr) {
 		return nil, false
 	}
 	bits, _ := prefix.Mask.Size()
